@@ -124,7 +124,7 @@ def production_rt(seed, n, api, prefix, wrong_every=0, passwords=None):
         e = {"op": "enc", "api": api, "aad": "key" if api == "key" else "pass", "cs": 65536, "plen": plen, "rs": rs, "ws": [], "fs": [],
              "rgen": rgen, "wgen": rnd.choice([0, 0, 100000, 5000]) if plen > 300 else rnd.choice([0, 1, 7]),
              "kseed": 100 + i, "rseed": 1 + (i % 3), "pseed": 10 + i, "pwseed": 1 + (i % 6), "id": sid,
-             "inject": (i % 2 == 0)}
+             "inject": (i % 2 == 0), "eph": ["none", "pub_only", "priv_only", "payload_only"][(i // 2) % 4]}
         if passwords:
             e["password_hex"] = passwords[i % len(passwords)]
         d = {"rs": [], "ws": [], "fs": [],
@@ -417,6 +417,10 @@ def c03(pid, tier, seed, selftest=False):
     acc = sum(1 for r in runs if r["end"] and r["end"]["res"] == "ok")
     rep.extra["accepted_runs"] = acc
     rep.extra["rejected_runs"] = len(runs) - acc
+    # at the tool: what `kestrel decrypt` leaves at the output path after a success is exactly the plaintext, also when the
+    # path held a longer file before (round trips through the tool, files and pipes)
+    import cli_rt
+    cli_rt.run(rep, pid, tpl, seed, "C03", "key", thorough)
     return finish(rep, runs)
 
 
@@ -648,6 +652,10 @@ def c11(pid, tier, seed, selftest=False):
                           "kseed": 1, "pseed": 4, "id": "bd%d" % i, "rgen": 0 if i == 0 else 40000, "heapref": True})
         scenarios.append({"op": "bigdec", "api": api, "aad": aad, "plen": plen // 4 + 17, "chunk": 1000, "rs": [], "ws": [],
                           "fs": [], "kseed": 2, "pseed": 5, "id": "bs%d" % i, "heapref": True})
+    # a small authentic file followed by a long tail of junk (generated, never held): rejected, and rejected in constant memory
+    for i, (api, trail) in enumerate([("key", 24 * MiB), ("pass", 24 * MiB)] + ([("key", 700 * MiB)] if thorough else [])):
+        scenarios.append({"op": "bigdec", "api": api, "aad": "key" if api == "key" else "pass", "plen": 4 * 65536 + 13, "chunk": 65536, "trail": trail,
+                          "rs": [], "ws": [], "fs": [], "kseed": 3, "pseed": 6, "id": "bt%d" % i, "heapref": True})
     for s in scenarios:
         e = s["enc"] if s["op"] == "rt" else s
         rep.case(key_of(s), e["plen"] > e.get("cs", 65536))
